@@ -110,6 +110,20 @@ def plan(prop):
         for template, dims in ((('pd', 1), ('mixed', 1), ('empty', 1), ('p-only', 1), ('pd', 2)) if Q else
                                (('pd', 1), ('mixed', 1), ('empty', 1), ('p-only', 1), ('pd', 2), ('mixed', 2), ('pd', 3))):
             obs.append(('vrp-pragmatic', lambda ctx, t=template, d=dims: po.ob_job_rules(ctx, t, d)))
+    if prop == 'C12':
+        import pragmatic_obligations as po
+        prag = 'vrp-pragmatic'
+        lim = [((1, 1, 1), True), ((1, 2, 1, 1), True), ((1, 1), False), ((2,), True)] if Q else \
+            [((1, 1, 1), True), ((1, 2, 1, 1), True), ((1, 1), False), ((2,), True), ((1, 1, 2), False), ((1, 1, 1, 1, 1), True), ((1, 3, 2, 1), True)]
+        for acts, closed in lim:
+            obs.append((prag, lambda ctx, a=acts, c=closed: po.ob_checker_limits(ctx, a, c)))
+        loads = [((), 1), ((('sd',),), 1), ((('sd',), ('sp',)), 1), ((('dp',), ('dd',)), 1), ((('sd', 'sp'), ('spd',)), 2), ((('none',), ('sp', 'sd')), 1)]
+        if not Q:
+            loads += [((('sd',), ('dp',), ('sp',), ('dd',)), 1), ((('sd', 'sd'), ('sp',), ('spd', 'none')), 2), ((('dp', 'dd'), ('sd',)), 3)]
+        for kinds, dims in loads:
+            obs.append((prag, lambda ctx, k=kinds, d=dims: po.ob_checker_load(ctx, k, d)))
+        for n in ((1, 2, 3) if Q else (1, 2, 3, 4, 5)):
+            obs.append((prag, lambda ctx, n=n: po.ob_checker_routing(ctx, n)))
     if prop == 'C18':
         import ieee_obligations as io
         obs.append(('rosomaxa', lambda ctx: io.ob_max_generation(ctx)))
